@@ -36,7 +36,7 @@ ASSUMPTIONS = [
     "'fail' may be listed under errors or failures, but exactly one of them",
 ]
 
-IDS = ("a", "b", "c")
+IDS = ("a", "b", "c", "r0/a")       # "r0/a" unrouted vs "a" on route "r0": distinct tests
 ROUTES = (None, "r0", "r1")
 STATUSES = (None, "inprogress", "success", "fail", "skip", "xfail", "uxsuccess", "exists")
 FINAL = ("success", "fail", "skip", "xfail", "uxsuccess", "exists")
@@ -70,6 +70,17 @@ def gen(tape, big=False):
             if tape.chance("program", 1, 8, "not-runnable"):
                 ev["runnable"] = False
             evs.append(ev)
+        scripts.append(evs)
+    if tape.draw("program", 200, "bulk-attachments?") == 199:
+        # a boundary count: one test receiving hundreds of chunks on two attachments
+        route = ROUTES[tape.draw("program", len(ROUTES), "bulk-route")]
+        nchunks = tape.choice("program", (255, 256, 300, 520), "bulk-chunks")
+        evs = [{"route_code": route, "test_id": "bulk", "test_status": "inprogress", "timestamp": 9000}]
+        for i in range(nchunks):
+            evs.append({"route_code": route, "test_id": "bulk", "test_status": None, "file_name": "f" if i % 2 else "g",
+                        "file_bytes": b"<%d>" % (9000 + i), "eof": False, "mime_type": None})
+        if tape.chance("program", 1, 2, "bulk-final"):
+            evs.append({"route_code": route, "test_id": "bulk", "test_status": "success"})
         scripts.append(evs)
     return scripts
 
